@@ -1,5 +1,6 @@
 """Models for opaque python objects (xarray DataArray handles, Grid seen from outside) and the
 factories for record objects named in typespecs (obj('Grid') ...)."""
+import ast
 import z3
 
 from . import engine as E
@@ -124,7 +125,43 @@ def uterm(v):
             v.ghost["_uterm"] = t
             v.ghost["_uterm_of"] = v._term
         return t
+    if isinstance(v, float):
+        return F_REAL2U(z3.RealVal(repr(v)))
+    if isinstance(v, z3.ExprRef) and v.sort() == V.REAL:
+        return F_REAL2U(v)
+    if isinstance(v, dict):
+        f = _uf("dict%d" % len(v), 2 * len(v))
+        flat = []
+        for k in sorted(v, key=str):
+            flat += [uterm(k), uterm(v[k])]
+        return f(*flat)
+    if type(v).__name__ == "_SliceVal":
+        return _uf("slice", 3)(uterm(v.lo), uterm(v.hi), uterm(v.step))
+    if type(v).__name__ == "DType":
+        return E.str_const("dtype:" + v.name)
+    if type(v).__name__ in ("ModRef", "FuncRef", "ClassRef", "Builtin"):
+        return E.str_const("ref:" + str(getattr(v, "name", None) or getattr(getattr(v, "info", None), "qualname", "?")))
+    if v is Ellipsis:
+        return E.str_const("...")
     raise Unsupported(f"object term of {type(v).__name__}")
+
+
+F_REAL2U = z3.Function("real2u", V.REAL, USORT)
+F_TRUTH = z3.Function("py_truth", USORT, V.BOOL)
+
+
+def abs_value(ex, name, args, kwargs):
+    """abstract mode: f(args) as an uninterpreted, deterministic function of its operands"""
+    kw = sorted(kwargs)
+    fname = name + ("|" + ",".join(kw) if kw else "")
+    terms = [uterm(a) for a in args] + [uterm(kwargs[k]) for k in kw]
+    if name.startswith(("lib:", "meth:", "op:", "unop:", "cmp:", "getitem", "item")):
+        trusted(ex, "abstract mode: library calls, operators, subscripts and non-mutating methods on uninterpreted values are "
+                    "deterministic, side-effect-free functions of their operands")
+    t = _uf(fname, len(terms))(*terms) if terms else z3.Const("uf_" + fname, USORT)
+    o = Opaque(term=t, name=fname)
+    o.ghost["truth"] = F_TRUTH(t)
+    return o
 
 
 def _uf(name, arity):
@@ -154,6 +191,147 @@ def sp_uf(ex, args, kwargs, node):
     return as_opt(f(*[uterm(a) for a in rest]) if rest else z3.Const("uf_" + name, USORT), name)
 
 
+@spec("summary")
+def sp_summary(ex, args, kwargs, node):
+    """summary('qualname', a, b, ...): the value the summarised function returns for these arguments (parameter order)"""
+    return abs_value(ex, "fn:" + args[0], list(args[1:]), {})
+
+
+def _consts_of(t, acc, seen):
+    stack = [t]
+    while stack:
+        x = stack.pop()
+        k = x.get_id()
+        if k in seen:
+            continue
+        seen.add(k)
+        if z3.is_quantifier(x):
+            stack.append(x.body())
+            continue
+        if z3.is_app(x):
+            if x.num_args() == 0 and x.decl().kind() == z3.Z3_OP_UNINTERPRETED:
+                acc[str(x)] = x
+            else:
+                stack.extend(x.children())
+
+
+def _rigid(name):
+    return name.startswith(("str:", "py:")) or name in ("py_none", "py_true", "py_false", "pi", "FILL")
+
+
+def _is_rigid_const(nm, c, rigid):
+    return nm in rigid or _rigid(nm) or c.eq(NONE_U) or c.eq(TRUE_U) or c.eq(FALSE_U)
+
+
+def _relevant_hyps(hyps, terms, rigid, memo=None):
+    """cone of influence: the hypotheses that (transitively) share a non-rigid constant with `terms`"""
+    rel, seen = {}, set()
+    for t in terms:
+        _consts_of(t, rel, seen)
+    rel = {k for k, c in rel.items() if not _is_rigid_const(k, c, rigid)}
+    hc = []
+    memo = memo if memo is not None else {}
+    for h in hyps:
+        ent = memo.get(id(h))
+        if ent is None or ent[0] is not h:
+            cs, sn = {}, set()
+            _consts_of(h, cs, sn)
+            ent = memo[id(h)] = (h, {k for k, c in cs.items() if not _is_rigid_const(k, c, rigid)})     # keeps h alive: id stays valid
+        hc.append(ent[1])
+    picked = [False] * len(hyps)
+    changed = True
+    while changed:
+        changed = False
+        for i, cs in enumerate(hc):
+            if not picked[i] and (cs & rel):
+                picked[i] = True
+                rel |= cs
+                changed = True
+    return [h for i, h in enumerate(hyps) if picked[i]]
+
+
+def two_safety(ex, tag, arg_terms, value_term):
+    """Cross-path non-interference goal.  Records (args, value, relevant hypotheses) of every execution path that reaches this point;
+    the goal for the current path j is, for EVERY recorded path r (including j itself):
+
+        hyps_j  /\  rename(hyps_r)  /\  args_j == rename(args_r)   ==>   value_j == rename(value_r)
+
+    where rename() primes every non-rigid constant of r's formulas (inputs, cache slots, havoc values), i.e. the two executions are
+    independent except that they agree on the listed arguments.  hyps_j is supplied by the obligation's own hypotheses; hyps_r is
+    restricted to r's cone of influence on (args, value).  When the implication already holds without r's hypotheses they are
+    omitted, and a pair of records that was shown valid that way is not repeated on later paths."""
+    st = ex.ctx.__dict__.setdefault("two_safety_records", {}).setdefault(tag, {"recs": {}, "free": {}})
+    store, free = st["recs"], st["free"]
+    rigid = ex.ctx.__dict__.get("_rigid_consts")
+    if rigid is None:
+        rigid, seen = {}, set()
+        for h in ex.ctx.global_axioms:
+            _consts_of(h, rigid, seen)
+        ex.ctx._rigid_consts = rigid
+    hyps = _relevant_hyps(list(E.PENDING_FACTS) + list(ex.st.facts) + list(ex.st.pc), list(arg_terms) + [value_term], rigid,
+                          ex.ctx.__dict__.setdefault("_hyp_consts_memo", {}))
+    key = (tuple(a.sexpr() for a in arg_terms), value_term.sexpr())
+    rec = store.get(key)
+    if rec is None:
+        rec = store[key] = {"args": list(arg_terms), "value": value_term, "hyps": {}, "sub": None}
+    hk = tuple(sorted(h.sexpr() for h in hyps))
+    new_hyps = hk not in rec["hyps"]
+    rec["hyps"].setdefault(hk, hyps)
+    if new_hyps:
+        rec["sub"] = None
+    goals = []
+    for rkey, r in store.items():
+        fk = (key, rkey)
+        if free.get(fk) is True:
+            continue                  # shown valid without any hypotheses on an earlier path (and obliged there)
+        todo = [hk_r for hk_r in r["hyps"] if (key, hk, rkey, hk_r) not in free] if fk in free else None
+        if todo is not None and not todo:
+            continue                  # every (record, hypotheses) pair was obliged on an earlier path
+        if r["sub"] is None:
+            used, seen2 = {}, set()
+            for t in r["args"] + [r["value"]]:
+                _consts_of(t, used, seen2)
+            for hs in r["hyps"].values():
+                for h in hs:
+                    _consts_of(h, used, seen2)
+            r["sub"] = [(c, z3.Const(nm + "'", c.sort())) for nm, c in used.items() if not _is_rigid_const(nm, c, rigid)]
+            r["ren"] = {}
+        sub = r["sub"]
+        ren = (lambda t, sub=sub: z3.substitute(t, *sub)) if sub else (lambda t: t)
+        if "av" not in r["ren"]:
+            r["ren"]["av"] = ([ren(b) for b in r["args"]], ren(r["value"]))
+        rargs, rval = r["ren"]["av"]
+        agree = [a == b for a, b in zip(arg_terms, rargs)]
+        concl = value_term == rval
+        g0 = z3.Implies(z3.And(z3.Distinct(TRUE_U, FALSE_U, NONE_U), *agree), concl)     # None / True / False are distinct objects
+        if fk not in free:
+            sv = z3.Solver()
+            sv.set("timeout", 1000)
+            sv.add(z3.Not(g0))
+            free[fk] = sv.check() == z3.unsat
+            if free[fk]:
+                goals.append(g0)
+                continue
+            todo = list(r["hyps"])
+        for hk_r in todo:
+            free[(key, hk, rkey, hk_r)] = False
+            hs = r["hyps"][hk_r]
+            if hk_r not in r["ren"]:
+                r["ren"][hk_r] = z3.And(*[ren(h) for h in hs]) if hs else z3.BoolVal(True)
+            goals.append(z3.Implies(r["ren"][hk_r], g0))
+    if not goals:
+        return True
+    return z3.And(*goals) if len(goals) > 1 else goals[0]
+
+
+@spec("depends_only")
+def sp_depends_only(ex, args, kwargs, node):
+    """depends_only(e, a1, ..., an): e is a function of a1..an only - over ALL pairs of execution paths of the function (2-safety);
+    everything else the body reads (cache slots, earlier results, other parameters) may differ between the two executions."""
+    tag = "depends_only:" + (ast.unparse(node) if node is not None else str(len(args)))
+    return two_safety(ex, tag, [uterm(a) for a in args[1:]], uterm(args[0]))
+
+
 @spec("src")
 def sp_src(ex, args, kwargs, node):
     return Opaque(term=attr_term(ident_of(args[0]), "__src__"), name="src")
@@ -168,7 +346,16 @@ def sp_same(ex, args, kwargs, node):
 @spec("has")
 def sp_has(ex, args, kwargs, node):
     d, k = args
+    if isinstance(d, dict):
+        return k in d
     return d.present(k)
+
+
+@spec("getdefault")
+def sp_getdefault(ex, args, kwargs, node):
+    """getdefault(d, key, default): d.get(key, default) for a python dict of keyword arguments"""
+    d, k, dflt = args
+    return d[k] if k in d else dflt
 
 
 @spec("entry")
@@ -189,6 +376,20 @@ def sp_entry(ex, args, kwargs, node):
 _orig_make_grid = make_grid
 
 
+def _init_dict_keys(ex, attr):
+    """keys of the dict literal that Grid.__init__ assigns to self.<attr> (None if not found)"""
+    try:
+        init = ex.ctx.repo.module("uxarray.grid.grid").classes["Grid"]["__init__"].node
+    except Exception:  # noqa: BLE001
+        return None
+    for n in ast.walk(init):
+        if isinstance(n, ast.Assign) and len(n.targets) == 1 and isinstance(n.targets[0], ast.Attribute) \
+                and n.targets[0].attr == attr and isinstance(n.value, ast.Dict) \
+                and all(isinstance(k, ast.Constant) and isinstance(k.value, str) for k in n.value.keys):
+            return tuple(k.value for k in n.value.keys)
+    return None
+
+
 @factory("Grid")
 def make_grid2(ex, name, env, **kw):
     g = _orig_make_grid(ex, name, env)
@@ -201,12 +402,14 @@ def make_grid2(ex, name, env, **kw):
             g.fields[slot] = opt_opaque(f"{name}.{slot}")          # any object or None (methods that do not use the trees)
         else:
             g.fields[slot] = None if ex.nondet(2) == 0 else make_tree(ex, cls, f"{name}.{slot}")
-    for dname, keys in (("_gdf_cached_parameters", ("gdf", "periodic_elements", "projection", "non_nan_polygon_indices", "engine",
-                                                    "exclude_am", "exclude_nan_polygons", "antimeridian_face_indices")),
-                        ("_poly_collection_cached_parameters", ("poly_collection", "periodic_elements", "projection",
-                                                                "corrected_to_original_faces", "non_nan_polygon_indices",
-                                                                "antimeridian_face_indices")),
-                        ("_line_collection_cached_parameters", ("line_collection", "periodic_elements", "projection"))):
+    defaults = {"_gdf_cached_parameters": ("gdf", "periodic_elements", "projection", "non_nan_polygon_indices", "engine",
+                                           "exclude_am", "exclude_nan_polygons", "antimeridian_face_indices"),
+                "_poly_collection_cached_parameters": ("poly_collection", "periodic_elements", "projection",
+                                                       "corrected_to_original_faces", "non_nan_polygon_indices",
+                                                       "antimeridian_face_indices"),
+                "_line_collection_cached_parameters": ("line_collection", "periodic_elements", "projection")}
+    for dname, keys in defaults.items():
+        keys = _init_dict_keys(ex, dname) or keys        # the key set is read from Grid.__init__ of the tree under check
         g.fields[dname] = SymDict(f"{name}.{dname}", {k: [True, opt_opaque(f"{name}.{dname}.{k}")] for k in keys}, closed=True,
                                   owner="self")
     g.fields["_ds"].ghost["entry_factory"] = lambda ex_, d, key: make_dataarray(ex_, f"{d.name}.{key}")
